@@ -171,9 +171,18 @@ def run(tier, seed, replay_case=None):
         items += core.run_sharded(eval_cases, seed, total, {'tier': tier})
         if tier == 'thorough':
             items += core.run_sharded(eval_cases, seed + 1, 48, {'tier': tier, 'big': True})
-    mobs = core.Driver().run([it['model_case'] for it in items])
+    drv = core.Driver()
+    mobs = drv.run([it['model_case'] for it in items])
     for it, mo in zip(items, mobs):
         judge(rep, it, mo)
+    # the concrete Lean matcher (SkModel.StdTs) against Python re on every window
+    small = [case_content(it['case']) for it in items if 'content' in it['case']]
+    nwin, nts, ood = K.std_parser_crosscheck(drv, small)
+    rep.count('std_parser_windows', nwin)
+    rep.count('std_parser_timestamps', nts)
+    rep.count('std_parser_out_of_domain', ood)
     rep.assumptions = ["binary file seek/read/tell", "timestamp extraction on the 64-byte "
-                       "window is an oracle table (Python re + datetime)"]
+                       "window is an oracle table (Python re + datetime); for the standard "
+                       "format the Lean parser SkModel.StdTs is compared with it on every "
+                       "window of every generated content"]
     return rep.finish(aud, RULE)
